@@ -71,6 +71,8 @@ class FiniteEval:
             return [self.ev(e) for e in n.elts]
         if isinstance(n, ast.Set):
             return {self.ev(e) for e in n.elts}
+        if isinstance(n, ast.Dict) and all(k is not None for k in n.keys):
+            return {self.ev(k): self.ev(v) for k, v in zip(n.keys, n.values)}
         if isinstance(n, ast.UnaryOp):
             v = self.ev(n.operand)
             if isinstance(n.op, ast.Not):
@@ -124,6 +126,13 @@ class FiniteEval:
                 return self.calls[f](*[self.ev(a) for a in n.args])
             if f == 'range':
                 return list(range(*[self.ev(a) for a in n.args]))
+            if isinstance(n.func, ast.Attribute) and n.func.attr in (
+                    'startswith', 'endswith', 'lower', 'upper', 'get',
+                    'keys'):
+                base = self.ev(n.func.value)
+                if isinstance(base, (str, dict)):
+                    return getattr(base, n.func.attr)(
+                        *[self.ev(a) for a in n.args])
             if f in ('np.copy', 'int', 'np.array', 'abs', 'bool', 'len', 'max',
                      'min', 'str'):
                 args = [self.ev(a) for a in n.args]
